@@ -692,5 +692,5 @@ META = {
     "happens under one view (a number allocated against one table is never registered in another). Interleavings with process exits are not decided.",
     "note": "Decides the listed structural clauses, not the behaviour. Error returns are recognised by the alias "
     "convention `return <out>, <non-empty err>`.",
-    "more": 'Also decided: resume_job reports success only after moving the selected job to the front of the order, which is the job bg then continues. An allocator of any shape must establish that the number it returns is not a key of the job dict.',
+    "more": 'Also decided: resume_job reports success only after moving the selected job to the front of the order, which is the job bg then continues. An allocator of any shape must establish that the number it returns is not a key of the job dict. use_main_jobs may be a generator-based or a class-based context manager; in the class form the view saved at entry must be per activation (a decorator instance shared by every call and thread is reported).',
 }
